@@ -428,6 +428,11 @@ func writeEvidence(path string, pf PropFile, tier string, seed int, order []stri
 			discharged++
 		}
 	}
+	knownSet := map[string]bool{}
+	for _, k := range known {
+		knownSet[k] = true
+	}
+	claimed := len(order) - len(known)
 	byBackend := map[string]int{}
 	secBy := map[string]float64{}
 	for _, o := range all {
@@ -483,8 +488,10 @@ func writeEvidence(path string, pf PropFile, tier string, seed int, order []stri
 		"violations":  violations,
 		"assumptions": as,
 		"coverage": map[string]interface{}{
-			"obligations":              len(order),
+			"obligations":              claimed,
 			"discharged":               discharged,
+			"obligations_generated":    len(order),
+			"known_findings_excluded":  len(known),
 			"vc_instances":             len(all),
 			"checker_cmd":              "govc verify -prop " + pf.ID + " -tier " + tier + " (weakest-precondition style VCs from go/ssa of /repo's working tree; z3 4.8.12, z3 5.1.0, cvc5 1.0 raced)",
 			"trusted_base":             append([]string{"golang.org/x/tools go/ssa + go/types", "z3 4.8.12", "z3 5.1.0 (z3-new)", "cvc5 1.0", "govc symbolic executor and contract evaluator (/verif/govc)"}, pf.Trusted...),
@@ -495,7 +502,7 @@ func writeEvidence(path string, pf PropFile, tier string, seed int, order []stri
 			"undecided":                undecided,
 			"obligation_names":         names,
 			"samples":                  samples,
-			"explanation":              "every obligation is one SMT query generated from the SSA of the function under contract; a named obligation is discharged when all its path instances are unsat",
+			"explanation":              "obligations = named obligations generated from the current tree minus those listed in KNOWN_FINDINGS.txt (reported as KNOWN-FINDING, never counted as discharged); every obligation is one SMT query generated from the SSA of the function under contract; a named obligation is discharged when all its path instances are unsat",
 		},
 	}
 	b, _ := json.MarshalIndent(ev, "", " ")
